@@ -79,7 +79,7 @@ func main() {
 	})
 }
 
-func plan(tier string, seed int64) []run.Batch {
+func planBase(tier string, seed int64) []run.Batch {
 	nb, ncal, nfiles, nwire := 16, 28, 36, 14
 	if tier == "thorough" {
 		nb, ncal, nfiles, nwire = 192, 14, 112, 20
@@ -912,7 +912,7 @@ func (w *world) judgeDatagrams() {
 	}
 }
 
-func child(b run.Batch, r *ev.Result) {
+func childBase(b run.Batch, r *ev.Result) {
 	rng := rand.New(rand.NewSource(b.Seed))
 	var ncal, nfiles, nwire int
 	fmt.Sscan(b.P("ncal"), &ncal)
